@@ -23,6 +23,8 @@ pub enum SV {
     Bool(bool),
     Int(i64),
     Str(String),
+    /// `serialize_char` (= `serialize_str` of the one-character string since fix 8690a78; the model sees `.str [c]`)
+    Char(char),
     None,
     Some(Box<SV>),
     Newtype(Box<SV>),
@@ -50,6 +52,7 @@ impl Serialize for SV {
             SV::Bool(b) => s.serialize_bool(*b),
             SV::Int(i) => s.serialize_i64(*i),
             SV::Str(x) => s.serialize_str(x),
+            SV::Char(c) => s.serialize_char(*c),
             SV::None => s.serialize_none(),
             SV::Some(v) => s.serialize_some(&**v),
             SV::Newtype(v) => s.serialize_newtype_struct("W", &**v),
@@ -109,6 +112,7 @@ impl SV {
             SV::Bool(x) => format!("B{}", b(*x)),
             SV::Int(i) => format!("I {i}"),
             SV::Str(s) => format!("S {}", hex(s)),
+            SV::Char(c) => format!("S {}", hex(&c.to_string())),
             SV::None => "N".into(),
             SV::Some(v) => format!("O {}", v.tokens()),
             SV::Newtype(v) => format!("NS {}", v.tokens()),
@@ -190,7 +194,7 @@ impl SV {
     }
     pub fn kind(&self) -> &'static str {
         match self {
-            SV::Unit => "unit", SV::Bool(_) => "bool", SV::Int(_) => "int", SV::Str(_) => "str", SV::None => "none", SV::Some(_) => "some",
+            SV::Unit => "unit", SV::Bool(_) => "bool", SV::Int(_) => "int", SV::Str(_) => "str", SV::Char(_) => "char", SV::None => "none", SV::Some(_) => "some",
             SV::Newtype(_) => "newtype_struct", SV::Seq(_) => "seq", SV::Tuple(_) => "tuple", SV::TupleStruct(_) => "tuple_struct",
             SV::Map(true, _) => "map", SV::Map(false, _) => "map_unknown_len", SV::Struct(_) => "struct", SV::UnitVariant(..) => "unit_variant",
             SV::NewtypeVariant(..) => "newtype_variant", SV::TupleVariant(..) => "tuple_variant", SV::StructVariant(..) => "struct_variant",
@@ -276,6 +280,7 @@ pub fn erase(v: &SV) -> P {
         SV::Bool(x) => P::Bool(*x),
         SV::Int(i) => P::Int(*i as i128),
         SV::Str(s) | SV::LitStr(s) => P::Str(s.clone()),
+        SV::Char(c) => P::Str(c.to_string()),
         SV::FoldStr(s) => P::Fold(s.clone()),
         SV::Some(v) | SV::Newtype(v) | SV::FlowSeq(v) | SV::FlowMap(v) | SV::Commented(v, _) | SV::SpaceAfter(v) => erase(v),
         SV::Seq(vs) | SV::Tuple(vs) | SV::TupleStruct(vs) => P::Seq(vs.iter().map(erase).collect()),
@@ -313,6 +318,7 @@ pub fn typed(v: &SV) -> Option<(Ty, Val)> {
         SV::Bool(x) => (Ty::Bool, Val::Bool(*x)),
         SV::Int(i) => (Ty::Int(true, 64), Val::Int(*i as i128)),
         SV::Str(s) | SV::LitStr(s) | SV::FoldStr(s) => (Ty::Str, Val::Str(s.clone())),
+        SV::Char(c) => (Ty::Char, Val::Char(*c)),
         SV::None => (Ty::Option(Box::new(Ty::Unit)), Val::None),
         SV::Some(v) => {
             let (t, x) = typed(v)?;
@@ -419,7 +425,7 @@ impl O {
         O {
             indent: *rng.pick(&[1, 2, 2, 2, 3, 4, 5, 8, 10]),
             min_fold: *rng.pick(&[0, 4, 32, 32]),
-            fold_wrap: *rng.pick(&[1, 5, 10, 20, 80, 80]),
+            fold_wrap: *rng.pick(&[0, 1, 5, 10, 20, 80, 80]),
             tagged: rng.chance(1, 4), braces: !rng.chance(1, 5), compact: rng.chance(1, 3), prefer_block: !rng.chance(1, 4),
             quote_all: rng.chance(1, 6), yaml12: rng.chance(1, 4),
         }
@@ -571,6 +577,7 @@ fn shrinks(v: &SV) -> Vec<SV> {
             for s in shrink_str(c) { out.push(SV::Commented(x.clone(), s)); }
         }
         SV::Str(s) => for t in shrink_str(s) { out.push(SV::Str(t)); },
+        SV::Char(c) => { out.push(SV::Str(c.to_string())); if *c != 'a' { out.push(SV::Char('a')); } }
         SV::LitStr(s) => { out.push(SV::Str(s.clone())); for t in shrink_str(s) { out.push(SV::LitStr(t)); } }
         SV::FoldStr(s) => { out.push(SV::Str(s.clone())); for t in shrink_str(s) { out.push(SV::FoldStr(t)); } }
         SV::Seq(vs) => rebuild_list(vs, &|w| SV::Seq(w), &mut out),
@@ -682,6 +689,7 @@ fn has_null_key_map_key(v: &SV) -> bool {
         SV::Unit | SV::None => true,
         SV::Some(v) | SV::Newtype(v) | SV::FlowMap(v) | SV::FlowSeq(v) | SV::SpaceAfter(v) => nullish(v),
         SV::Str(s) | SV::LitStr(s) | SV::FoldStr(s) => nullish_name(s),
+        SV::Char(c) => nullish_name(&c.to_string()),
         SV::UnitVariant(_, n) => nullish_name(n),
         _ => false } }
     fn one_null_entry(k: &SV) -> bool { match k {
@@ -1265,6 +1273,18 @@ fn generate(a: &Args, wrappers: bool) -> i32 {
         if wrappers && !v.any(&|x| x.is_wrapper()) { continue; }
         let o = if i % 3 == 0 { O::default() } else { O::random(&mut rng) };
         cx.case(if adversarial { "random_adversarial" } else { "random" }, &v, &o);
+    }
+    // chars (`serialize_char`) in every parent position x folding thresholds 0 / 1 / default x indent steps: a char is a
+    // one-character string for the emitter (fix 8690a78: `serialize_char` consumed the deferred space after `:` first)
+    for ch in ['a', 'y', '~', '1', ' ', '-', '#', ':', '"', '\'', '\n', '\t', '\r', '\u{85}', '\u{2028}', '\u{e9}', '\u{1F600}'] {
+        for (pi, (_, p)) in parents().iter().enumerate() {
+            for (wi, wrap) in [80usize, 1, 0].into_iter().enumerate() {
+                let o = O { fold_wrap: wrap, indent: [2, 1, 4][(pi + wi) % 3], compact: (pi + wi) % 2 == 1, ..O::default() };
+                let x = SV::Char(ch);
+                let y = if wrappers { SV::Commented(Box::new(SV::Char('z')), "c".into()) } else { SV::Char('z') };
+                cx.case("chars", &p(x, y), &o);
+            }
+        }
     }
     // deep indentation: lines indented by far more than any fixed-size blank buffer (indent_step x depth around and
     // beyond 64, 128, 256 columns), through every kind of nesting step
